@@ -105,6 +105,55 @@ def _gen_c15(rng, max_stages):
     return [_strip_below_lists(g.doc()) for _ in range(n)], [True] * n
 
 
+def _paths_of_sd(sd, p=()):
+    yield p, sd
+    for k, c in sd["ch"]:
+        yield from _paths_of_sd(c, p + (S.key_py(k),))
+
+
+def _gen_c08(rng, max_stages):
+    g = S.Gen(rng, keys=("a", "b", "c"), atoms=(1, 2, 3, "x", None), tags=("notnew", "notnew", "new"),
+              max_depth=rng.choice([2, 3, 4]), max_width=3, p_tag=0.3, p_empty=0.05)
+    gb = S.Gen(rng, keys=("a", "b", "c"), atoms=(1, 2, 3, "x"), tags=(), max_depth=rng.choice([2, 3, 4]), max_width=3, p_tag=0.0, p_empty=0.05)
+    n = rng.randint(2, max_stages)
+    docs = [gb.doc()]
+    for _ in range(n - 1):
+        r = rng.random()
+        if r < 0.45:
+            # a command-line override aimed at a path of some earlier document, possibly mistyped
+            src = rng.choice(docs)
+            cands = [p for p, node in _paths_of_sd(src) if p and isinstance(p[0], str)]
+            if not cands:
+                docs.append(gb.doc()); continue
+            p = list(rng.choice(cands))
+            if rng.random() < 0.4:
+                i = rng.randrange(len(p))
+                p[i] = rng.choice(["zz", "a", "b", 0, 1, 5]) if i > 0 else rng.choice(["zz", "a", "b"])
+                if rng.random() < 0.3:
+                    p = p[:i + 1]
+            val = rng.choice([S.leaf(5), S.leaf("v"), S.leaf(None), S.sequence([S.leaf(5)]), S.sequence([S.leaf(5), S.leaf(6), S.leaf(7)])])
+            node = val
+            for k in reversed(p):
+                node = S.mapping([(k, node)])
+            docs.append(S.with_tag(node, "notnew"))
+        elif r < 0.8:
+            d = g.doc()
+            if rng.random() < 0.5 and d["form"] == "none":
+                d = S.with_tag(d, "notnew")
+            docs.append(d)
+        else:
+            docs.append(gb.doc())
+    return docs, [True] * n
+
+
+def _c08_nontrivial(docs):
+    def gov(sd, inh):
+        if inh == "F":
+            return True
+        return any(gov(c, sd["anew"] if sd["anew"] != "N" else inh) for _, c in sd["ch"])
+    return len(docs) >= 2 and any(gov(d, "N") for d in docs[1:])
+
+
 def _strip_clear(sd):
     sd = dict(sd)
     sd["ch"] = [[k, _strip_clear(c)] for k, c in sd["ch"] if c["k"] != "clear" and not (c["k"] == "scalar" and c["del"] == "T" and c["v"] == ["n", ""])]
@@ -178,6 +227,22 @@ BUILDER = {
                 "B: seeded random histories (all merge-control tags) with a random wrapping chain of length 1-4 and a random sibling. "
                 "non-trivial = newer documents contain a deleting node; distinct by content",
     },
+    "C08": {
+        "invariants": ["Inv_C08"],
+        "driver": "cmdline",
+        "exh": {"quick": [("C08_Docs", 2, 2, "C08_Range"), ("C08_DocsFirst", 1, 1)],
+                "thorough": [("C08_Docs", 2, 2, "C08_Range"), ("C08_DocsFirst", 1, 1), ("C08_Docs3", 3, 3, "C08_Range3")]},
+        "mutations": [{"mutation": "NotNewShallow", "docs": "C08_Docs", "range": "C08_Range", "stages": (2, 2), "expect": ["Inv_C08"]},
+                      {"mutation": "NotNewSkipsFirst", "docs": "C08_DocsFirst", "stages": (1, 1), "expect": ["Inv_C08"]}],
+        "gen": _gen_c08, "random": {"quick": 1500, "thorough": 30000}, "max_stages": 4,
+        "nontrivial": _c08_nontrivial,
+        "rule": "A: every base config (depth<=3, mappings and lists of mappings) x every overriding document with !notnew/!new/none on "
+                "every mapping and list (738) and every command-line override `path=value` over paths through keys a b and indices 0 1 2 "
+                "(existing, mistyped at each depth, out of range) x scalar and list values (165), the latter driven through "
+                "Config.build_from_cmdline; every overriding document also as a first document; B: seeded random histories and "
+                "random overrides derived from the paths of the config built so far (existing or mutated). non-trivial = some later "
+                "document has a node below !notnew; distinct by content",
+    },
     "C15": {
         "invariants": ["Inv_C15"],
         "rel": "c15",
@@ -206,7 +271,7 @@ _BUILDER_NOTE = ("trusted: TLC 1.8, the YAML renderer and the projection of harn
                  "bounded universes (named in the evidence); direction B samples larger inputs, it does not enumerate them")
 ENGINES = [
     {"name": "builder-family", "path": "/verif/harness/builderfam.py",
-     "serves_properties": sorted(["C02", "C03", "C04", "C05", "C15"]),
+     "serves_properties": sorted(["C02", "C03", "C04", "C05", "C08", "C15"]),
      "kind_free_text": "TLC over spec/MC_Build.tla (AyBuild state machine: AddSource / FlattenFirst / MergeStage / Finish over "
                        "AyParse + AyMerge) checks the property invariants on every history of a bounded document universe and prints "
                        "each behaviour; every behaviour is replayed through the real Builder; recorded traces of seeded larger "
@@ -258,4 +323,13 @@ META["C15"] = {"engine": "builder-family", "design_ref": "DESIGN.md 5/C15",
             "history (and twice in one process for determinism) and TLC judges the logged outcomes; idempotence and key-order "
             "freedom are up to key order, the others exact.",
     "note": _BUILDER_NOTE + "; remove-this-key idiom (value-less / falsy / vanishing !del) excluded as the statement says"}
+META["C08"] = {"engine": "builder-family", "design_ref": "DESIGN.md 5/C08",
+    "technique": "TLC model checking of AyBuild + AyCmdline + trace validation / behaviour replay (Config.build_from_cmdline) against the library",
+    "text": "TLC checks on the merge specification (_require_all_new on new keys, on whole-subtree replacement with the removed-set, on "
+            "the first stage) that a successful stage never creates a path governed by !notnew (nearest strict !new/!notnew ancestor), "
+            "that a governed missing path fails with a MergeError naming such a path, that a !notnew first document fails, and that "
+            "the document process_cmdline builds for `a.b[i].c=value` sets exactly that path; every enumerated behaviour is replayed "
+            "(overrides through the real command-line grammar) and random histories validated by TLC.",
+    "note": _BUILDER_NOTE + "; OverrideExact is claimed for scalar values (mapping values merge, list values longer than the "
+            "existing list address new indices and fail by the !notnew rule itself)"}
 NOT_APPLICABLE = {}
